@@ -62,6 +62,10 @@ CLAIMED["C14"] = ("other", "Mixed: (proof) specifiers - 13 Boolean-algebra laws 
                   "returned objects by the canonical-uniqueness lemma whose head/tail/base steps are machine-checked; a & ~a empty and a | ~a universal via witness points; markers - 10 laws up to equivalence as corollaries of the C02 operator law; "
                   "(bounded) law sweep on real objects.", "5 C14", "C01/C05 contracts; list-induction principle for canonical uniqueness; C02 operator law (atom layer bounded); dense order",
                   "corollaries of operator contracts + machine-checked lemmas (z3), bounded law sweep")
+CLAIMED["C07"] = ("other", "Mixed: (proof) MultiMarker.__str__ / MarkerUnion.__str__ produce a join whose operands parse at the right precedence (no unparenthesised or-join or <empty>/'' token inside an and-join) and mean the children, "
+                  "for all compounds in normal form; (bounded) str() of every parse/&/|/only/exclude result of the marker sweep is re-parsed by parse_marker and packaging.Marker and re-evaluated on the environment grid; "
+                  "<empty>/'' round trip and absence of <empty> inside larger markers checked there.", "5 C07", "A-PKG-PARSE (precedence); str() contract of children assumed recursively; atom renderings bounded; D14 finding",
+                  "contract-based verification of the parenthesisation (document algebra, invariants, z3) + bounded round trip")
 CLAIMED["C10"] = ("other", "Mixed: (frame analysis, decided statically on every run) every memoised function found in the source reads, through its key parameters, only state that ==/hash compare, and the key objects it returns "
                   "carry no uncompared field that str()/evaluate read - with the memoisation meta-lemma this gives independence from history; (bounded) cold-vs-warm differential of probe operations after generated histories, "
                   "including operands/results that are equal as keys but built or spelled differently.", "5 C10", "meta-lemma (stated, trusted); annotations used for method resolution; whitelisted lazy cache _specifier",
